@@ -681,7 +681,7 @@ func (e *Engine) Run(init *State) []*State {
 				work = append(work, forks...)
 			}
 		}
-		if e.maxPaths > 0 && len(done)+len(work) > e.maxPaths {
+		if mp := e.pathCap(); len(done)+len(work) > mp {
 			for _, w := range work {
 				w.cut = "path limit"
 				done = append(done, w)
@@ -1069,12 +1069,41 @@ func (e *Engine) step(s *State) []*State {
 				}
 			}
 		}
+		succT, succF := f.blk.Succs[0], f.blk.Succs[1]
+		from := f.blk
+		// short-circuit fusion: `a || b` / `a && b` compile to two consecutive branches; when the second test
+		// is side-effect free it is evaluated now and the two are decided as one condition (otherwise a loop
+		// whose condition is a disjunction forks 2^n ways over arms that lead to the same place)
+		for fuse := 0; fuse < 8 && !c.IsBoolConst(); fuse++ {
+			if c2, m, ok := e.speculate(s, f, succF); ok && m.Succs[0] == succT && noPhis(succT) { // a || b
+				c, succF, from = Or(c, c2), m.Succs[1], m
+				continue
+			}
+			if c2, m, ok := e.speculate(s, f, succT); ok && m.Succs[1] == succF && noPhis(succF) { // a && b
+				c, succT, from = And(c, c2), m.Succs[0], m
+				continue
+			}
+			break
+		}
+		goT := func(st *State, fr *Frame) {
+			fr.blk = from
+			e.gotoBlock(st, fr, succT)
+		}
+		goF := func(st *State, fr *Frame) {
+			fr.blk = from
+			e.gotoBlock(st, fr, succF)
+		}
+		if from != f.blk && (!noPhis(succT) || !noPhis(succF)) {
+			// the targets distinguish their predecessors: fall back to the unfused branch
+			succT, succF, from = f.blk.Succs[0], f.blk.Succs[1], f.blk
+			c = e.get(s, f, x.Cond).(*Term)
+		}
 		if c == True {
-			e.gotoBlock(s, f, f.blk.Succs[0])
+			goT(s, f)
 			return nil
 		}
 		if c == False {
-			e.gotoBlock(s, f, f.blk.Succs[1])
+			goF(s, f)
 			return nil
 		}
 		tf, ff := true, true
@@ -1089,14 +1118,14 @@ func (e *Engine) step(s *State) []*State {
 			o := s.clone()
 			of := o.frames[len(o.frames)-1]
 			o.pc = append(o.pc, Not(c))
-			e.gotoBlock(o, of, of.blk.Succs[1])
+			goF(o, of)
 			s.pc = append(s.pc, c)
-			e.gotoBlock(s, f, f.blk.Succs[0])
+			goT(s, f)
 			return []*State{o}
 		case tf:
-			e.gotoBlock(s, f, f.blk.Succs[0])
+			goT(s, f)
 		default:
-			e.gotoBlock(s, f, f.blk.Succs[1])
+			goF(s, f)
 		}
 	case *ssa.Return:
 		var rv Value
@@ -1861,4 +1890,139 @@ func constKey(k Value) string {
 		}
 	}
 	return "?"
+}
+
+func noPhis(b *ssa.BasicBlock) bool {
+	if len(b.Instrs) == 0 {
+		return true
+	}
+	_, isPhi := b.Instrs[0].(*ssa.Phi)
+	return !isPhi
+}
+
+// speculate evaluates block m (single predecessor, only side-effect-free instructions that provably cannot
+// panic, ending in an If) in the current frame and returns its branch condition.
+func (e *Engine) speculate(s *State, f *Frame, m *ssa.BasicBlock) (*Term, *ssa.BasicBlock, bool) {
+	if len(m.Preds) != 1 || len(m.Instrs) == 0 || len(m.Instrs) > 12 {
+		return nil, nil, false
+	}
+	last, ok := m.Instrs[len(m.Instrs)-1].(*ssa.If)
+	if !ok {
+		return nil, nil, false
+	}
+	tmp := map[ssa.Value]Value{}
+	get := func(v ssa.Value) Value {
+		if x, ok := tmp[v]; ok {
+			return x
+		}
+		return e.get(s, f, v)
+	}
+	okAll := true
+	func() {
+		defer func() {
+			if r := recover(); r != nil {
+				okAll = false
+			}
+		}()
+		for _, in := range m.Instrs[:len(m.Instrs)-1] {
+			switch y := in.(type) {
+			case *ssa.BinOp:
+				if y.Op == token.QUO || y.Op == token.REM {
+					okAll = false
+					return
+				}
+				a, b := get(y.X), get(y.Y)
+				at, ok1 := a.(*Term)
+				_, ok2 := b.(*Term)
+				if !ok1 || !ok2 || at == nil {
+					okAll = false
+					return
+				}
+				v, _, _ := e.binopPure(y, a, b)
+				if v == nil {
+					okAll = false
+					return
+				}
+				tmp[y] = v
+			case *ssa.Convert:
+				t, ok := get(y.X).(*Term)
+				if !ok {
+					okAll = false
+					return
+				}
+				if _, _, okw := width(y.Type()); !okw {
+					okAll = false
+					return
+				}
+				tmp[y] = e.convert(s, y, t)
+			case *ssa.UnOp:
+				v := get(y.X)
+				switch y.Op {
+				case token.MUL:
+					p, ok := v.(*Ptr)
+					if !ok || p.Obj == 0 {
+						okAll = false
+						return
+					}
+					saveAcc := len(s.acc)
+					r := e.load(s, p, e.site(y.Pos()))
+					s.acc = s.acc[:saveAcc]
+					tmp[y] = r
+				case token.NOT:
+					tmp[y] = Not(v.(*Term))
+				default:
+					okAll = false
+					return
+				}
+			case *ssa.IndexAddr:
+				idx := e.toInt(get(y.Index).(*Term), y.Index.Type())
+				sl, ok := get(y.X).(*SliceV)
+				if !ok {
+					okAll = false
+					return
+				}
+				inb := And(Le(CI(0), idx, true), Lt(idx, sl.Len, true))
+				if inb != True {
+					okAll = false // the bounds check is not decided syntactically: do not speculate
+					return
+				}
+				tmp[y] = &Ptr{Obj: sl.Obj, Path: []PathElem{{Idx: Add(sl.Off, idx)}}, View: sl.View, Epoch: sl.Epoch}
+			case *ssa.FieldAddr:
+				p, ok := get(y.X).(*Ptr)
+				if !ok || p.Obj == 0 {
+					okAll = false
+					return
+				}
+				tmp[y] = &Ptr{Obj: p.Obj, Path: append(append([]PathElem{}, p.Path...), PathElem{Field: y.Field})}
+			case *ssa.DebugRef:
+			default:
+				okAll = false
+				return
+			}
+		}
+	}()
+	if !okAll {
+		return nil, nil, false
+	}
+	c, ok := get(last.Cond).(*Term)
+	if !ok {
+		return nil, nil, false
+	}
+	// the speculated values become visible (SSA values are unique; harmless if the block is not taken)
+	for k, v := range tmp {
+		f.locals[k] = v
+	}
+	return c, m, true
+}
+
+// binopPure: BinOp on terms without side conditions (no division).
+func (e *Engine) binopPure(x *ssa.BinOp, a, b Value) (Value, []*State, bool) {
+	return e.binop(nil, x, a, b)
+}
+
+func (e *Engine) pathCap() int {
+	if e.maxPaths > 0 {
+		return e.maxPaths
+	}
+	return 20000
 }
